@@ -100,7 +100,7 @@ func buildTagFields(rt reflect.Type, nested, omitEmpty bool) (fa []*finfo) {
 			continue
 		}
 		var fx byte
-		if f.Anonymous && nested {
+		if f.Anonymous && nested && embedsStruct(f.Type) {
 			if f.Type.Kind() == reflect.Ptr {
 				for _, fi := range buildTagFields(f.Type.Elem(), nested, omitEmpty) {
 					fi.index = append([]int{i}, fi.index...)
@@ -153,7 +153,7 @@ func buildExactFields(rt reflect.Type, nested, omitEmpty bool) (fa []*finfo) {
 			continue
 		}
 		switch {
-		case f.Anonymous && nested:
+		case f.Anonymous && nested && embedsStruct(f.Type):
 			if f.Type.Kind() == reflect.Ptr {
 				for _, fi := range buildExactFields(f.Type.Elem(), nested, omitEmpty) {
 					fi.index = append([]int{i}, fi.index...)
@@ -183,7 +183,7 @@ func buildLowFields(rt reflect.Type, nested, omitEmpty bool) (fa []*finfo) {
 		if len(name) == 0 || 'a' <= name[0] {
 			continue
 		}
-		if f.Anonymous && nested {
+		if f.Anonymous && nested && embedsStruct(f.Type) {
 			if f.Type.Kind() == reflect.Ptr {
 				for _, fi := range buildLowFields(f.Type.Elem(), nested, omitEmpty) {
 					fi.index = append([]int{i}, fi.index...)
@@ -213,4 +213,14 @@ func buildLowFields(rt reflect.Type, nested, omitEmpty bool) (fa []*finfo) {
 		}
 	}
 	return
+}
+
+// embedsStruct returns true if the fields of an embedded field of the type
+// are promoted which is only the case for a struct or a pointer to a
+// struct. An embedded field of any other type is a field like any other.
+func embedsStruct(rt reflect.Type) bool {
+	if rt.Kind() == reflect.Ptr {
+		rt = rt.Elem()
+	}
+	return rt.Kind() == reflect.Struct
 }
